@@ -147,8 +147,11 @@ def Cmd.meth? : Cmd → Option Meth
   | .stage k => some (.stage k)
   | _ => none
 
-/-- the pasted body compiles and runs: every `self.stageN()`/`self.initialize()`
-it calls is a generated wrapper, every evaluator index exists -/
+/-- the pasted body runs to its end: every `self.stageN()`/`self.initialize()`
+it calls is a generated wrapper, every evaluator index exists.  (Cython
+compiles a call of a missing wrapper as a run-time attribute lookup: the step
+then aborts with AttributeError at that statement, after having executed the
+statements before it; the driver models exactly that, see Driver/C04.lean.) -/
 def cmdWellFormed (cfg : Cfg) : Cmd → Bool
   | .initialize => decide (Meth.initialize ∈ wrappers cfg)
   | .stage k => decide (Meth.stage k ∈ wrappers cfg)
